@@ -36,7 +36,7 @@ NEIGH = ["rec2", "rec-x", "re", "recp1"]
 
 REC_OPS = ["commit", "commit", "commit_exts", "create_patch", "discard", "reopen", "reopen", "merge_other",
            "merge_same", "readall", "find", "list", "neigh_w", "neigh_del", "open_x", "copy_into_patch",
-           "verify_old", "stub", "close_nocommit", "write_fail"]
+           "verify_old", "stub", "close_nocommit", "write_fail", "prefix_rw", "stale_handle"]
 
 
 def gen_history(rng, n):
@@ -178,6 +178,42 @@ class Run:
                 rec[rng.choice(ds)].copy_into_patch()
             elif k == "verify_old":
                 return [k], self.verify_old()
+            elif k == "prefix_rw":
+                # open a strict PREFIX of the chain for patching: the next patch file already exists (committed)
+                files = [p for p in rec.ih5_files if RE.is_committed_on_disk(p)]
+                if len(files) < 2:
+                    return [k], "skip"
+                n = rng.randint(1, len(files) - 1)
+                other = None
+                try:
+                    other = self.cls(files[:n], rng.choice(["r+", "a"]))
+                finally:
+                    RE.safe_close(other, commit=False)
+                    gc.collect()
+            elif k == "stale_handle":
+                # a second object patches and commits the record while this one stays open; then this one patches
+                if rec._has_writable:
+                    rec.commit_patch()
+                    self.commits.append({"files": [str(p) for p in rec.ih5_files], "dump": E.dump_walk(rec)})
+                files = list(rec.ih5_files)
+                B = self.cls(files, "r+")
+                B[f"stale{len(self.calls)}"] = 1
+                B.close()
+                for p in B.__dict__.get("_ublocks", {}):
+                    pass
+                newf = sorted(set(self.cls.find_files(self.d / "rec")) - set(files))
+                for p in newf:
+                    self.ledger.add(p)
+                    if RE.sidecar(p).exists():
+                        self.ledger.add(RE.sidecar(p))
+                try:
+                    rec.create_patch()  # stale view: the file of "its" next patch exists and is committed
+                    rec["written-through-stale-handle"] = 1
+                finally:
+                    # get a consistent object again for the rest of the history
+                    RE.safe_close(self.rec, commit=False)
+                    gc.collect()
+                    self.rec = self.cls(self.d / "rec", "r+")
             elif k == "stub":
                 if self.cls is not RE.IH5MFRecord:
                     return [k], "skip"
